@@ -149,6 +149,10 @@ let () = iter_lines (fun line ->
            let c0 = h2v2_fancy_c b a (nat_of_int n) and c1 = h2v2_fancy_c b d (nat_of_int n) in
            Printf.printf "ok %s %s%s%s\n" (hex c0) (hex c1) (chk c0 (h2v2_fancy_simd v b a (nat_of_int n))) (chk c1 (h2v2_fancy_simd v b d (nat_of_int n)))
        | _ -> print_endline "?")
+  | "r565" :: _ ->
+      (* every row of every color_convert call ends at 2*width whatever its alignment (C11_rgb565_row_exact) *)
+      let w = gz t "w" in
+      Printf.printf "ok total=%d rowbytes=%d full\n" (gi t "h") (int_of_z (rgb565_row_end w (gz t "al")))
   | "rs" :: _ ->
       (* whole image through jpeg_read_scanlines(max_lines): every call stays within its rows
          (C11_read_scanlines_rows_within); the calls together deliver the scaled height *)
